@@ -10,8 +10,11 @@ import (
 	"math/rand"
 	"os"
 	"path/filepath"
+	"runtime"
 	"sort"
 	"strings"
+	"sync/atomic"
+	"time"
 )
 
 // Violation is one refuting observation together with the case that produced it.
@@ -58,6 +61,27 @@ type W struct {
 	sampleN  map[string]int
 	curMon   string
 	curLen   int64
+	beat     int64 // unix nanos of the last sign of life (atomic)
+}
+
+// Beat records a sign of life for the per-case watchdog.
+func (w *W) Beat() { atomic.StoreInt64(&w.beat, time.Now().UnixNano()) }
+
+// StartWatchdog kills the process (exit 4, after dumping all goroutine stacks) when no
+// case completed for limit; the parent then treats the breadcrumb as a hang candidate.
+func (w *W) StartWatchdog(limit time.Duration) {
+	w.Beat()
+	go func() {
+		for {
+			time.Sleep(500 * time.Millisecond)
+			if time.Duration(time.Now().UnixNano()-atomic.LoadInt64(&w.beat)) > limit {
+				buf := make([]byte, 1<<20)
+				n := runtime.Stack(buf, true)
+				fmt.Fprintf(os.Stderr, "CASE-WATCHDOG: no progress for %s\n%s\n", limit, buf[:n])
+				os.Exit(4)
+			}
+		}
+	}()
 }
 
 const maxDistinctPerShard = 6_000_000
@@ -148,6 +172,7 @@ func (w *W) Cur(monitor string, c interface{}) {
 		}
 		w.curF = f
 	}
+	w.Beat()
 	b, _ := json.Marshal(map[string]interface{}{"monitor": monitor, "case": c})
 	w.curF.Truncate(int64(len(b)))
 	w.curLen = int64(len(b))
@@ -163,6 +188,7 @@ func (w *W) CurRaw(monitor string, rawCase []byte) {
 		}
 		w.curF = f
 	}
+	w.Beat()
 	b := make([]byte, 0, len(rawCase)+64)
 	b = append(b, `{"monitor":"`...)
 	b = append(b, monitor...)
@@ -266,6 +292,8 @@ type Prop struct {
 	CrashIsViolation bool
 	// MemLimitMB: address-space limit of each child (0 = none).
 	MemLimitMB int
+	// CaseTimeoutSec: per-case watchdog inside each child (0 = default 60 quick / 300 thorough).
+	CaseTimeoutSec func(tier string) int
 	// Probes: extra children (shard numbers Shards..Shards+Probes-1) that each run one
 	// input expected to be fatal to the process (known findings are re-observed this way).
 	Probes func(tier string) int
